@@ -39,7 +39,8 @@ func ParseAndValidateServerName(serverName ServerName) (host string, port int, v
 			return
 		}
 		ip := host[1 : len(host)-1]
-		if net.ParseIP(ip) == nil {
+		if net.ParseIP(ip) == nil || !strings.Contains(ip, ":") {
+			// not an address at all, or an IPv4 address in brackets
 			return
 		}
 		valid = true
